@@ -90,6 +90,7 @@ func (e *ParserData) WriteCode(T CodeType, value any) {
 		return
 	}
 
+	verifTraceEmit(T)
 	c := &e.code[e.codeIndex]
 	c.T = T
 	c.Value = value
